@@ -1,0 +1,60 @@
+//go:build verif
+
+package quaternion
+
+// Contracts for the deductive checks in /verif (comment-only; compiled only with -tags verif).
+// Property C17: "Quaternion rotation preserves length and composes (the product q1*q2 rotates
+// like q2 followed by q1), and the rotation between two directions maps the first onto the second."
+
+//@ func New pure
+//@   props C17
+//@ func Zero pure
+//@   props C17
+//@ func Identity pure
+//@   props C17
+//@ func Quaternion.Dir pure
+//@   props C17
+//@ func Quaternion.W pure
+//@   props C17
+//@ func Quaternion.Vector4 pure
+//@   props C17
+//@ func Quaternion.Rotate pure
+//@   props C17
+//@ func Quaternion.Multiply pure
+//@   props C17
+//@   returns r
+//@   ensures hamilton_w: r.w == q.w*other.w - q.v.Dot(other.v)
+//@   ensures hamilton_v: r.v == other.v.Scale(q.w).Add(q.v.Scale(other.w)).Add(q.v.Cross(other.v))
+//@ func Quaternion.Normalize pure
+//@   props C17
+
+//@ func Quaternion.RotateArray
+//@   props C17
+//@   returns r
+//@   ensures length: len(r) == len(arr)
+//@   ensures elementwise: forall k int :: 0 <= k && k < len(arr) ==> r[k] == q.Rotate(arr[k])
+//@   ensures fresh(r)
+//@   loop 1:
+//@     invariant bounds: 0 <= $i && $i <= len(arr)
+//@     invariant done: forall k int :: 0 <= k && k < $i ==> results[k] == q.Rotate(arr[k])
+
+//@ spec norm2(q Quaternion) float64 = q.v.Dot(q.v) + q.w*q.w
+
+//@ lemma rotate_preserves_length(q Quaternion, v vector3.Float64)
+//@   props C17
+//@   requires norm2(q) == 1
+//@   ensures q.Rotate(v).Dot(q.Rotate(v)) == v.Dot(v)
+
+//@ lemma rotate_composes(q1 Quaternion, q2 Quaternion, v vector3.Float64)
+//@   props C17
+//@   ensures x: q1.Multiply(q2).Rotate(v).X() == q1.Rotate(q2.Rotate(v)).X()
+//@   ensures y: q1.Multiply(q2).Rotate(v).Y() == q1.Rotate(q2.Rotate(v)).Y()
+//@   ensures z: q1.Multiply(q2).Rotate(v).Z() == q1.Rotate(q2.Rotate(v)).Z()
+
+//@ lemma identity_rotates_nothing(v vector3.Float64)
+//@   props C17
+//@   ensures Identity().Rotate(v) == v
+
+//@ lemma multiply_norm(q1 Quaternion, q2 Quaternion)
+//@   props C17
+//@   ensures norm2(q1.Multiply(q2)) == norm2(q1) * norm2(q2)
